@@ -39,6 +39,18 @@ var propConfigs = map[string]propConfig{
 	"C20": {ID: "C20", Level: "proof",
 		Explain: "Event history: syncSaveEvent keeps at most limit entries dropping the oldest, syncPubEvent saves exactly the unrestricted publications with id, arguments and subscription, independent of subscribers.",
 		Assume: []string{"github.com/gammazero/deque is a sequence ADT (PushBack/PopFront/Len/At)"}},
+	"C07": {ID: "C07", Level: "other", Structural: []string{"nonblocking"},
+		Explain: "Effect contract 'nonblocking' on every function that runs on the broker or dealer goroutine (sync*, trySend, prepareEvent, meta-event builders): checked on the SSA and call graph - no blocking send, receive or select on any path including in-place callees, so every send to a peer from there is a select with default; the in-process router-to-client queue is created with exactly the configured capacity (LinkedPeersQSize postcondition).",
+		Assume: []string{"deadlock freedom and 'eventually processed' are not decided: wait-for cycles between goroutines are not a per-function property", "the rawsocket/websocket peers' queue creation is not under contract (only the in-process peer is)"}},
+	"C09": {ID: "C09", Level: "proof",
+		Explain: "Attach path: AttachClient sends WELCOME and calls handleSession only after authClient returned without error under the router-assigned session id; the session's identity details come from the router (session id) and the authenticator's WELCOME; authClient returns a welcome only for an in-process peer without required local authentication or when an authenticator registered for an offered method accepted; each built-in authenticator returns a welcome only if the key store vouches (AlreadyAuth) or the response verifies against the challenge issued in this very handshake (wampcra: crsign.VerifySignature over the issued challenge string; ticket: equal to the stored ticket; cryptosign: valid signature whose opened message equals the issued challenge bytes).",
+		Assume: []string{"unforgeability and nonce freshness are cryptographic assumptions (crypto/rand, HMAC-SHA256, ed25519 via nacl/sign.Open are trusted)", "third-party Authenticator / KeyStore implementations are represented by their interface contracts", "peers deliver well-formed messages (a typed nil pointer is never delivered): recvsite assumption"}},
+	"C10": {ID: "C10", Level: "proof",
+		Explain: "Authorization gate: every dispatch call in handleInboundMessages (broker.publish/subscribe/unsubscribe, dealer.call/cancel/yield/register/unregister/error) is reached only if there is no authorizer, the sender is the meta session, or authzMessage returned true for this very message; authzMessage returns true exactly when the peer is in-process and local authorization is off or Authorize returned true, and otherwise sends exactly one ERROR with the message's type, request id and not_authorized / authorization_failed (none for an unacknowledged PUBLISH) and sends nothing when it allows.",
+		Assume: []string{"Authorizer.Authorize is an uninterpreted function of (authorizer, session id, session details, message) that may rewrite dictionaries", "peers deliver well-formed messages (recvsite assumption)"}},
+	"C11": {ID: "C11", Level: "proof", Structural: []string{"immutable-fields", "owned-writes", "owned-calls", "no-mutable-globals", "mapinv-writes"},
+		Explain: "Realm separation: a session is attached only to the realm registered under the HELLO's realm URI (closure of AttachClient on the router goroutine) and authenticated by that same realm; addRealm registers a realm under its own URI; every message of a session is dispatched to the broker and dealer of the realm that handles the session; broker/dealer/realm state is written only by functions running on the owning component (structural ownership checks) and no package-level variable of the router is written after initialisation.",
+		Assume: []string{"freshness of broker/dealer objects per realm follows from newRealm allocating them (constructor postconditions), composition over the router's history is a paper step"}},
 	"C19": {ID: "C19", Level: "proof",
 		Explain: "URI validation, matching and id generation: the real wamp functions are verified against reference languages/spec functions built from the property statement, for all strings (SMT alphabet) and all 64-bit values.",
 		Assume: []string{
